@@ -151,6 +151,7 @@ type Sim struct {
 	planned                           []*plannedInj
 	accAnswerRound, accComplaintRound int
 	deferring                         map[int]int // honest sender -> round in which one of its broadcasts was deferred (later ones of that round follow it)
+	NoEcho                            bool        // never deliver a broadcast back to its own sender
 	NoDefer                           bool        // switch the deferral of honest reaction messages off (plain VSS, C09's no-panic networks keep it on)
 	Excluded                          map[string]int
 	started                           bool
@@ -319,9 +320,13 @@ func (s *Sim) enqueue(d *delivery, delay int) {
 		s.bseq[d.from]++
 		seq := s.bseq[d.from]
 		s.tracef("  [r%d] node %d broadcasts %s", s.Round, d.from, Describe(d.data))
+		echo := !s.NoEcho && s.G.Chance("echoToSender", 1, 10)
+		if echo {
+			s.class("broadcastEchoedToItsSender")
+		}
 		for r := 0; r < s.N; r++ {
-			if r == d.from {
-				continue // delivering a broadcast back to its sender is a separate generated option (echo)
+			if r == d.from && !echo {
+				continue // a broadcast channel may or may not hand a message back to its own sender (the library ignores it)
 			}
 			s.pool = append(s.pool, &delivery{from: d.from, to: r, broadcast: true, bseq: seq, data: d.data})
 		}
